@@ -1,3 +1,73 @@
+(** C08 — the optimisation pass never changes observable behaviour.
+    Statements only; proofs in proofs/OptProofs.v.
+    PARTIAL.  Proved: every rewrite rule of the pass (Passes.optimize_node and the &&/|| folding of
+    Passes.optimize_opt) is an equation of the evaluator - same value, same type, same state, hence
+    same output, assignments and trace movements - for any state and any sub-evaluator that returns
+    literals unchanged; a folded operand list consists of literals only, so no side-effecting
+    sub-expression is ever dropped or reordered by a rule.  Not proved: the congruence step (a
+    rewritten sub-expression inside an arbitrary program, including code captured in closures and
+    quoted data that is evaluated later); products with float literals (1*f = f in IEEE arithmetic).
+    These are decided by the differential check (with vs without the pass, exhaustive small trees). *)
 From WalModel Require Import Eval.
-Theorem tmp : True. Proof. exact I. Qed.
-Print Assumptions tmp.
+From WalModel.proofs Require Import EvalArith OptProofs.
+Local Open Scope Z_scope.
+
+Theorem literals_evaluate_to_themselves : forall lf f v st, is_lit v = true -> eval lf (S f) v st = Ok v st.
+Proof. exact eval_literal. Qed.
+Print Assumptions literals_evaluate_to_themselves.
+
+Section Rules.
+  Variable ev : val -> M val.
+  Hypothesis Hlit : forall v st, is_lit v = true -> ev v st = Ok v st.
+
+  (** (if lit then else) => then / else *)
+  Theorem rule_if_true : forall c t rest st,
+    is_lit c = true -> lit_truthy c = true -> (List.length rest <= 1)%nat -> op_if ev (c :: t :: rest) st = ev t st.
+  Proof. exact (if_literal_true ev Hlit). Qed.
+  Theorem rule_if_false : forall c t e st,
+    is_lit c = true -> lit_truthy c = false -> op_if ev [c; t; e] st = ev e st.
+  Proof. exact (if_literal_false ev Hlit). Qed.
+
+  (** (do x) => x *)
+  Theorem rule_do_single : forall x st, op_do ev [x] st = ev x st.
+  Proof. exact (do_single ev). Qed.
+
+  (** (+ lit...) => sum / concatenation, computed with the evaluator's own arithmetic (ints, bools, floats) *)
+  Theorem rule_add_numbers : forall args v st,
+    forallb is_num_lit args = true -> lit_sum args = Some v -> op_add ev args st = Ok v st.
+  Proof. exact (add_numeric_literals ev Hlit). Qed.
+  Theorem rule_add_strings : forall args st,
+    forallb is_str_lit args = true -> args <> [] -> op_add ev args st = Ok (VStr (sconcat (map str_of_lit args))) st.
+  Proof. exact (add_string_literals ev Hlit). Qed.
+
+  (** ( * int...) => product *)
+  Theorem rule_mul_integers : forall z z2 zs st,
+    exists v, lit_prod (ints (z :: z2 :: zs)) = Some v /\ op_mul ev (ints (z :: z2 :: zs)) st = Ok v st.
+  Proof. exact (mul_integer_literals ev Hlit). Qed.
+
+  (** (&& lit...) / (|| lit...) => the boolean the evaluator computes *)
+  Theorem rule_and : forall args st,
+    forallb is_lit args = true -> args <> [] -> op_and ev args st = Ok (VBool (forallb lit_truthy args)) st.
+  Proof. exact (and_literals ev Hlit). Qed.
+  Theorem rule_or : forall args st,
+    forallb is_lit args = true -> args <> [] -> op_or ev args st = Ok (VBool (existsb lit_truthy args)) st.
+  Proof. exact (or_literals ev Hlit). Qed.
+End Rules.
+Print Assumptions rule_if_true.
+Print Assumptions rule_if_false.
+Print Assumptions rule_do_single.
+Print Assumptions rule_add_numbers.
+Print Assumptions rule_add_strings.
+Print Assumptions rule_mul_integers.
+Print Assumptions rule_and.
+Print Assumptions rule_or.
+
+(** the pass applies exactly these rules: a node is rewritten only in the situations above *)
+Example pass_examples :
+  optimize (WL [VOp OIf; VInt 0; Sy "a"; Sy "b"]) = Sy "b" /\
+  optimize (WL [VOp OMul; VInt 0; WL [VOp OPrint; VStr "a"]]) = WL [VOp OMul; VInt 0; WL [VOp OPrint; VStr "a"]] /\
+  optimize (WL [VOp OAnd; VInt 5]) = VBool true /\
+  optimize (WL [VOp OAnd; Sy "e"; VInt 0]) = WL [VOp OAnd; Sy "e"; VInt 0] /\
+  optimize (WL [VOp OOr; VInt 0; VStr ""]) = VBool false /\
+  optimize (WL [VOp OAdd; VInt 1; WL [VOp OMul; VInt 2; VInt 3]]) = VInt 7.
+Proof. vm_compute. repeat split; reflexivity. Qed.
